@@ -166,6 +166,16 @@ func runSingleNodeRecovery(
 			}
 			count += len(resp.Operations)
 			for _, op := range resp.Operations {
+				// Peers are consulted concurrently and may hold different versions
+				// of a key, and the high-water mark was read before any of them
+				// answered: only apply what supersedes the state recovered so far.
+				sup, supErr := supersedes(ctx, tx, op)
+				if supErr != nil {
+					return supErr
+				}
+				if !sup {
+					continue
+				}
 				if err = op.apply(ctx, tx); err != nil {
 					return err
 				}
